@@ -234,7 +234,7 @@ func c08Run(r *Report, p *Prog, arch string) {
 			via := t.describeLabels(fn, s.labels&(act.active[fn]|lblSRC))
 			if s.kind == skBranch {
 				if s.verdictValue {
-					if why, ok := verdictSites[name]; ok {
+					if why, ok := verdictSites[c08SiteName(p, fn, name)]; ok {
 						r.Ok("VERDICT-SITE", key, pos, "branch on a declassified comparison result; verdict site: "+why)
 						continue
 					}
@@ -331,4 +331,33 @@ func earlyVerdictReturn(in ssa.Instruction) bool {
 		}
 	}
 	return false
+}
+
+// c08SiteName: the verdict-site table names the unexported encoder that Bytes and Bytes_Unsafe of SM2Point share by the name it
+// has on the pinned tree; under another name it is recognised by that role (an unexported method of *SM2Point whose callers
+// are exactly those two exported methods)
+func c08SiteName(p *Prog, fn *ssa.Function, name string) string {
+	if _, ok := verdictSites[name]; ok {
+		return name
+	}
+	if fn == nil || fn.Pkg == nil || shortPkg(fn.Pkg.Pkg.Path()) != "sm2/internal" || fn.Signature.Recv() == nil || token.IsExported(fn.Name()) {
+		return name
+	}
+	if !strings.Contains(fn.Signature.Recv().Type().String(), "SM2Point") {
+		return name
+	}
+	callers := map[string]bool{}
+	for _, g := range p.RepoFuncs() {
+		for _, b := range g.Blocks {
+			for _, in := range b.Instrs {
+				if c, ok := in.(ssa.CallInstruction); ok && c.Common().StaticCallee() == fn {
+					callers[p.FuncName(g)] = true
+				}
+			}
+		}
+	}
+	if len(callers) == 2 && callers["sm2/internal.(*SM2Point).Bytes"] && callers["sm2/internal.(*SM2Point).Bytes_Unsafe"] {
+		return "sm2/internal.(*SM2Point).bytes"
+	}
+	return name
 }
